@@ -100,7 +100,13 @@ def step (st : St) (op res : String) : St × List String :=
         | some (s', false), _ =>
           ({ st with s := s', bound := mon.1 }, br :: brl ++ [s!"DIVERGE dom model={fmtReply ((st.s.handle mac t0 choice).map (·.2) |>.getD .panic)} rows={(s'.db.filter (fun x => x.mac == mac)).map (fun r => (r.ip.toNat, r.expiry))}"] ++ fails)
         | none, _ => ({ st with bound := mon.1 }, br :: brl ++ ["DIVERGE dom inadmissible-choice"] ++ fails)
-      | _, _, _ => (st, ["DIVERGE dom unexpected-result"])
+      | _, _, _ =>
+        -- a reply whose yiaddr is not an IPv4 address (nil, 0 bytes): an answer with no address of the range
+        (st, ["DIVERGE dom unexpected-result"] ++
+             (if (words res).drop 2 |>.head? |> (· == some "reply") then
+                [s!"FAIL C02 request from {mac} answered with a reply that carries no address of the range: {res}",
+                 s!"FAIL C03 request from {mac} answered with a reply that carries no address of the range: {res}"]
+              else []))
     | none, _, _ => (st, ["br:skipped.no-setup"])
     | _, _, _ => (st, ["DIVERGE drift unparsed-op"])
   | ["rage", _] => (st, ["br:range.time-passes"])      -- time is read off the timestamps of the lines that follow
